@@ -263,17 +263,24 @@ def all_cases():
 MISSING_CASES = [{'dom': 'exc', 'kind': 'missing', 'nargs': na, 'scope': sc, 'via': via, 'bound': bound, 'kwo': kwo}
                  for na in (0, 1) for sc in ('sc', 'sc/inner', '') for via in ('call', 'reference')
                  for bound in (False, True) for kwo in (False, True)]
+# ... and the same with a keyword whose name contains braces (the callable takes **kwargs): the names listed in the
+# hint are data, not format fields
+MISSING_CASES += [{'dom': 'exc', 'kind': 'missing', 'nargs': na, 'scope': sc, 'via': via, 'bound': bound, 'kwo': False,
+                   'brace': br}
+                  for na in (0, 1) for sc in ('sc', '') for via in ('call', 'reference') for bound in (False, True)
+                  for br in ('{oops}', '{}', '{0}', 'a}b{')]
 
 
 def run_missing_case(case):
   gin = core.fresh_gin()
   g = {'__name__': 'em'}
   kwo = bool(case.get('kwo'))     # a required keyword-only parameter besides (supplied: by the caller or by Gin)
-  exec(f'def needs(a, b, c=0{", *, unit" if kwo else ""}):\n  return (a, b, c)\ndef consumer(v=None):\n  return v\n', g)  # pylint: disable=exec-used
+  brace = case.get('brace')
+  exec(f'def needs(a, b, c=0{", *, unit" if kwo else ""}{", **extra" if brace else ""}):\n  return (a, b, c)\ndef consumer(v=None):\n  return v\n', g)  # pylint: disable=exec-used
   n_args = case['nargs'] if case['via'] == 'call' else 0
   raw, orig_str, cls_facts = g['needs'], None, None
   try:
-    raw(*([1] * n_args), **({'unit': 1} if kwo else {}))
+    raw(*([1] * n_args), **({'unit': 1} if kwo else {}), **({brace: 1} if brace else {}))
   except TypeError as e0:     # what Python itself says about this call: the text Gin extends
     orig_str, cls_facts = str(e0), class_facts(e0)
   reprs = {'needs': repr(raw)}
@@ -289,9 +296,11 @@ def run_missing_case(case):
         st.enter_context(gin.config_scope(case['scope']))
       if case['via'] == 'reference':
         gin.parse_config('em.consumer.v = @em.needs()' + ('\nem.needs.unit = 1' if kwo else ''))
+        if brace:
+          gin.bind_parameter(('', 'em.needs', brace), 1)
         consumer()
       else:
-        needs(*([1] * case['nargs']), **({'unit': 1} if kwo else {}))
+        needs(*([1] * case['nargs']), **({'unit': 1} if kwo else {}), **({brace: 1} if brace else {}))
     facts['raised'] = None
   except TypeError as e:
     s = str(e)
@@ -310,10 +319,12 @@ def run_missing_case(case):
 def missing_levels(case, impl):
   n_args = case['nargs'] if case['via'] == 'call' else 0
   kwo, by_gin = bool(case.get('kwo')), case['via'] == 'reference'
+  br = [case['brace']] if case.get('brace') else []
   return [{'name': 'needs', 'repr': impl['reprs']['needs'], 'scope': case['scope'], 'posNames': ['a', 'b'], 'nArgs': n_args,
-           'kwNames': (['c'] if case['bound'] else []) + (['unit'] if kwo else []),
-           'ginBound': (['c'] if case['bound'] else []) + (['unit'] if kwo and by_gin else []),
-           'callerSupplied': ['a', 'b'][:n_args] + (['unit'] if kwo and not by_gin else []), 'frames': []}]
+           'kwNames': (['c'] if case['bound'] else []) + (['unit'] if kwo else []) + br,
+           'ginBound': (['c'] if case['bound'] else []) + (['unit'] if kwo and by_gin else []) + (br if by_gin else []),
+           'callerSupplied': ['a', 'b'][:n_args] + (['unit'] if kwo and not by_gin else []) + (br if not by_gin else []),
+           'frames': []}]
 
 
 LEVEL_NAMES = ['leaf', 'mid', 'top', 'l4', 'l5', 'l6', 'l7', 'l8', 'l9']
